@@ -115,6 +115,12 @@ def run(tier, v):
     # ordered variant: the un-shuffled concatenation gives complete connections
     tr = c10.build_traces(rng, 5)
     traces.append([f for crate in ("tcp", "http", "tls") for _, f in tr[crate]] + partly_rejected_connections())
+    # a trace with IPv4 and IPv6 handshakes and exchanges under a database in which every observation is a signature of both tables of
+    # its protocol, labelled by table (see C02 table selection): labels must agree between the unified and the protocol analyzers
+    from props import c02
+    ts_frames, _, ts_db = c02.table_db(wd)
+    traces.append(ts_frames)
+    ts_index = len(traces) - 1
     cfgs = [{"tcp": a, "http": b, "tls": c, "matcher": m, "db": d} for a in (True, False) for b in (True, False) for c in (True, False) for m in (True, False) for d in (True, False)]
     lines, meta = [], {}
     for ti, frames in enumerate(traces):
@@ -123,6 +129,8 @@ def run(tier, v):
             i = len(lines)
             meta[i] = (ti, cfg)
             lines.append({"id": i, "crate": "c20", "frames": [f.hex() for f in frames], "cfg": cfg, "matcher": cfg["db"], "clock": clock})
+            if ti == ts_index:
+                lines[-1]["db"] = ts_db
     req = os.path.join(wd, "c20.req")
     vlib.write_ndjson(req, lines)
     out = os.path.join(wd, "c20.out")
